@@ -5,7 +5,7 @@ usage: tools/seed_rerun.py [ids...]   (default: all; primary property plus the
 properties already listed in meta.json)"""
 import json, os, subprocess, sys, shutil, glob, re
 V = '/verif'
-ids = sys.argv[1:] or sorted(os.path.basename(d) for d in glob.glob(V + '/seeded/C*-m*'))
+ids = [] if sys.argv[1:] == ['--table-only'] else sys.argv[1:] or sorted(os.path.basename(d) for d in glob.glob(V + '/seeded/C*-*m[0-9]'))
 only_primary = os.environ.get('SEED_ONLY_PRIMARY') == '1'
 for sid in ids:
     d = '%s/seeded/%s' % (V, sid)
@@ -40,7 +40,7 @@ for sid in ids:
     json.dump(meta, open(d + '/meta.json', 'w'), indent=1)
 # results table
 rows = []
-for d in sorted(glob.glob(V + '/seeded/C*-m*')):
+for d in sorted(glob.glob(V + '/seeded/C*-*m[0-9]')):
     m = json.load(open(d + '/meta.json'))
     caught = [c.split()[0] for c in m['checks_run_against_it'] if ' CAUGHT' in c]
     missed = [c.split()[0] for c in m['checks_run_against_it'] if ' missed' in c]
